@@ -5,7 +5,7 @@ import CelmaVerif.Lemmas.GroupsStep
 namespace CelmaVerif.ProgArgs
 open CelmaVerif CelmaVerif.Keys
 
-theorem table_getElem? (cfg : Cfg) (i : Nat) : cfg.table[i]? = (cfg.args[i]?).map (fun d => (d.key, d)) := by
+theorem table_getElem_g? (cfg : Cfg) (i : Nat) : cfg.table[i]? = (cfg.args[i]?).map (fun d => (d.key, d)) := by
   unfold Cfg.table
   rw [List.getElem?_map]
 
@@ -19,7 +19,7 @@ theorem view_no_exact {cfg : Cfg} {vs : List View} (wf : GroupWF cfg vs) {k : Ke
   cases hfk : f.1.eq k with
   | false => rfl
   | true =>
-    have hti : cfg.table[i]? = some (d.key, d) := by rw [table_getElem?, hd]; rfl
+    have hti : cfg.table[i]? = some (d.key, d) := by rw [table_getElem_g?, hd]; rfl
     have := disjoint_eq_unique wf.disj hs hfa hti hfk hdk
     exact absurd (this ▸ ha) hiw
 
@@ -36,7 +36,7 @@ theorem view_findArg {cfg : Cfg} {vs : List View} (wf : GroupWF cfg vs) {k : Key
     {i : Nat} {d : ArgDef} (hd : cfg.args[i]? = some d) (hdk : d.key.eq k = true)
     {v : View} (hv : v ∈ vs) {loc : Nat} (hloc : v.ia.idxOf? i = some loc) :
     findArg (viewCfg cfg v).abbr (viewCfg cfg v).table k = .ok (some (loc, d)) := by
-  have hti : cfg.table[i]? = some (d.key, d) := by rw [table_getElem?, hd]; rfl
+  have hti : cfg.table[i]? = some (d.key, d) := by rw [table_getElem_g?, hd]; rfl
   have hb : ∀ a ∈ v.ia, a < cfg.table.length := by
     intro a ha
     unfold Cfg.table
@@ -58,7 +58,7 @@ theorem step_key_found {cfg : Cfg} {vs : List View} (wf : GroupWF cfg vs) {H : H
     rcases hkey with h | ⟨h, _⟩
     · exact h
     · rw [wf.abbr] at h; cases h
-  rw [table_getElem?] at hti
+  rw [table_getElem_g?] at hti
   have hd2 : cfg.args[i]? = some d ∧ key = d.key := by
     cases hd' : cfg.args[i]? with
     | none => rw [hd'] at hti; cases hti
@@ -94,7 +94,7 @@ theorem step_key_found {cfg : Cfg} {vs : List View} (wf : GroupWF cfg vs) {H : H
         obtain ⟨w, hw, hmw, _⟩ := GRel_mem rpre m hm
         rw [hmw]
         exact ⟨wf.abbr, view_no_exact wf hs hd hkey (hpre_notmem w hw)⟩)
-      ⟨(d.key, d), by rw [viewCfg_table]; exact mem_pick hiv (by rw [table_getElem?, hd]; rfl), hkey⟩
+      ⟨(d.key, d), by rw [viewCfg_table]; exact mem_pick hiv (by rw [table_getElem_g?, hd]; rfl), hkey⟩
     rw [hms, hdisp.1]
     -- both sides in normal form
     have hb : ∀ a ∈ v.ia, a < H.args.length := fun a ha => hinv.alen ▸ wf.abound v hv a ha
